@@ -1,6 +1,7 @@
 package bgp
 
 import (
+	"bytes"
 	"fmt"
 	"sort"
 	"time"
@@ -70,9 +71,13 @@ func buildMalformedUpdate(r *simrt.Rand, pc PeerCfg, dut DUTCfg, pfx Prefix, tag
 		a.MED = u32p(5)
 	}
 	spec := UpdateSpec{Announce: []NLRI{{Prefix: pfx}}, Attrs: a.Attrs(v6), V6: v6, ASN4: pc.PeerASN4}
-	kind := r.Intn(8)
+	kind := r.Intn(11)
 	var m malformedUpdate
 	switch kind {
+	case 8:
+		// none of the mandatory attributes at all (only optional ones remain)
+		spec.OmitOrigin, spec.OmitASPath, spec.OmitNextHop = true, true, true
+		m.why, m.class = "reachable NLRI without ORIGIN, AS_PATH and next hop", "missing_mandatory"
 	case 0:
 		spec.OmitOrigin = true
 		m.why, m.class = "reachable NLRI without ORIGIN", "missing_mandatory"
@@ -128,6 +133,44 @@ func buildMalformedUpdate(r *simrt.Rand, pc PeerCfg, dut DUTCfg, pfx Prefix, tag
 		}
 		raw[attrStart+2] = byte(al + 10)
 		m.why, m.class = "attribute length runs past the attribute block", "attr_length"
+	case 9:
+		// a fixed-size attribute (NEXT_HOP, MED, LOCAL_PREF: 4 bytes) declared and carried with
+		// another length; all outer lengths still add up
+		code := pick(r, []uint8{AttrNextHop, AttrMED, AttrLocalPref})
+		off := findAttr(raw[attrStart:attrStart+al], code)
+		if off < 0 || v6 && code == AttrNextHop {
+			return m, false
+		}
+		off += attrStart
+		if raw[off]&0x10 != 0 || raw[off+2] != 4 {
+			return m, false
+		}
+		grow := r.Chance(0.5)
+		if grow {
+			raw[off+2] = 5
+			raw = append(raw[:off+3+4], append([]byte{0x07}, raw[off+3+4:]...)...)
+			al++
+		} else {
+			raw[off+2] = 3
+			raw = append(raw[:off+3+3], raw[off+3+4:]...)
+			al--
+		}
+		raw[alOff], raw[alOff+1] = byte(al>>8), byte(al)
+		raw[16], raw[17] = byte(len(raw)>>8), byte(len(raw))
+		m.why, m.class = fmt.Sprintf("attribute %d (fixed size 4) declared and carried with length %d", code, raw[off+2]), "attr_length"
+	case 10:
+		// IPv6 NLRI inside MP_REACH_NLRI with a prefix length beyond 128
+		if !v6 {
+			return m, false
+		}
+		nb := (int(pfx.Len) + 7) / 8
+		needle := append([]byte{pfx.Len}, pfx.Addr[:nb]...)
+		off := bytes.LastIndex(raw, needle)
+		if off < attrStart {
+			return m, false
+		}
+		raw[off] = byte(129 + r.Intn(100))
+		m.why, m.class = "IPv6 NLRI prefix length beyond 128", "prefix_length"
 	}
 	m.raw = raw
 	// cross-check with the independent decoder
@@ -148,6 +191,24 @@ func buildMalformedUpdate(r *simrt.Rand, pc PeerCfg, dut DUTCfg, pfx Prefix, tag
 		}
 	}
 	return m, true
+}
+
+// findAttr returns the offset of the attribute with the given type code inside an attribute block (-1: absent).
+func findAttr(block []byte, code uint8) int {
+	for off := 0; off+3 <= len(block); {
+		n, hdr := int(block[off+2]), 3
+		if block[off]&0x10 != 0 {
+			if off+4 > len(block) {
+				return -1
+			}
+			n, hdr = int(block[off+2])<<8|int(block[off+3]), 4
+		}
+		if block[off+1] == code {
+			return off
+		}
+		off += hdr + n
+	}
+	return -1
 }
 
 func genC19(seed uint64) *Plan {
@@ -192,7 +253,11 @@ func genC19(seed uint64) *Plan {
 		var mu malformedUpdate
 		ok := false
 		for try := 0; try < 20 && !ok; try++ {
-			mu, ok = buildMalformedUpdate(r, pc, pl.DUT, pick(r, pool), tag, false)
+			if pc.IPv6 && r.Chance(0.35) {
+				mu, ok = buildMalformedUpdate(r, pc, pl.DUT, pick(r, []Prefix{P6(0x20010db800010000, 0, 48), P6(0x20010db800010000, 0, 64), P6(0x20010db8000100aa, 0, 64)}), tag, true)
+			} else {
+				mu, ok = buildMalformedUpdate(r, pc, pl.DUT, pick(r, pool), tag, false)
+			}
 		}
 		if !ok {
 			continue
